@@ -370,6 +370,22 @@ def _auto_discharge(cg: CG, s: RaiseSite) -> Optional[str]:
         idx = n.slice
         if s.exc in ("KeyError", "LookupError") and known_key_in(n.value, idx, facts):
             return "dominating `key in mapping` test"
+        # xs[i] with i the variable of `for i in range(len(xs))` (loop or comprehension) and xs not resized meanwhile
+        if s.exc in ("IndexError", "LookupError") and isinstance(idx, ast.Name) and isinstance(n.value, (ast.Name, ast.Attribute)):
+            holder = parent(n)
+            while holder is not None and holder is not fn:
+                gens = []
+                if isinstance(holder, ast.For):
+                    gens = [(holder.target, holder.iter)]
+                elif isinstance(holder, (ast.ListComp, ast.GeneratorExp, ast.SetComp, ast.DictComp)):
+                    gens = [(g_.target, g_.iter) for g_ in holder.generators]
+                for tg_, it_ in gens:
+                    if isinstance(tg_, ast.Name) and tg_.id == idx.id and isinstance(it_, ast.Call) and isinstance(it_.func, ast.Name) and it_.func.id == "range" and len(it_.args) == 1 and isinstance(it_.args[0], ast.Call) and isinstance(it_.args[0].func, ast.Name) and it_.args[0].func.id == "len" and it_.args[0].args and same(it_.args[0].args[0], n.value):
+                        resized = [c_ for c_ in ast.walk(holder) if isinstance(c_, ast.Call) and isinstance(c_.func, ast.Attribute) and same(c_.func.value, n.value) and c_.func.attr in ("pop", "remove", "clear", "insert", "append", "extend")]
+                        rebound = [a_ for a_ in ast.walk(holder) if isinstance(a_, (ast.Assign, ast.AugAssign)) and any(same(t_, n.value) or (isinstance(t_, ast.Name) and t_.id == idx.id) for t_ in (a_.targets if isinstance(a_, ast.Assign) else [a_.target]))]
+                        if not resized and not rebound:
+                            return f"the index runs over range(len({src_of(n.value)})) of the same, unchanged sequence"
+                holder = parent(holder)
         # D[k] with D a local dict literal and k the result of a helper whose every return value is a key of D (or None, excluded by a guard)
         if s.exc in ("KeyError", "LookupError") and isinstance(n.value, ast.Name) and isinstance(idx, ast.Name):
             binds_d = [a for a in ast.walk(fn) if isinstance(a, (ast.Assign, ast.AnnAssign)) and a.value is not None and any(isinstance(t_, ast.Name) and t_.id == n.value.id for t_ in (a.targets if isinstance(a, ast.Assign) else [a.target]))]
@@ -955,6 +971,16 @@ def sortedness(e: ast.AST, m: Model) -> Tuple[str, str]:
     message's fields."""
     if isinstance(e, ast.Call) and isinstance(e.func, ast.Name) and e.func.id in ("enumerate", "list", "tuple", "iter") and e.args:
         return sortedness(e.args[0], m)
+    # for i in range(len(xs)) ... xs[i]: the order of xs
+    if isinstance(e, ast.Call) and isinstance(e.func, ast.Name) and e.func.id == "range" and len(e.args) == 1 and isinstance(e.args[0], ast.Call) and isinstance(e.args[0].func, ast.Name) and e.args[0].func.id == "len" and e.args[0].args:
+        return sortedness(e.args[0].args[0], m)
+    if isinstance(e, ast.Name):
+        fn_ = enclosing(e, ast.FunctionDef)
+        if fn_ is not None:
+            binds = [a_ for a_ in ast.walk(fn_) if isinstance(a_, (ast.Assign, ast.AnnAssign)) and a_.value is not None and any(isinstance(t_, ast.Name) and t_.id == e.id for t_ in (a_.targets if isinstance(a_, ast.Assign) else [a_.target]))]
+            muts = [c_ for c_ in ast.walk(fn_) if isinstance(c_, ast.Call) and isinstance(c_.func, ast.Attribute) and isinstance(c_.func.value, ast.Name) and c_.func.value.id == e.id and c_.func.attr in ("sort", "reverse", "append", "insert", "extend", "pop", "remove")]
+            if len(binds) == 1 and not muts:
+                return sortedness(binds[0].value, m)
     if isinstance(e, ast.Call) and isinstance(e.func, ast.Attribute):
         a = e.func.attr
         if a == "sorted_fields":
@@ -1082,7 +1108,18 @@ def a4(repo: Repo) -> RuleResult:
     # the planner walk
     try:
         pl = m.func("renderer/formatter.py", "Formatter.format_op_mode_endecode_message")
-        loops = [n for n in ast.walk(pl.node) if isinstance(n, ast.For)]
+        # the walk over the message's fields: a for statement or the first generator of a comprehension
+        # whose body (element) formats one field
+        class _It:
+            def __init__(self, it: ast.AST, lineno: int) -> None:
+                self.iter, self.lineno = it, lineno
+
+        loops = []
+        for n in ast.walk(pl.node):
+            if isinstance(n, ast.For) and any(isinstance(c_, ast.Call) and isinstance(c_.func, ast.Attribute) and c_.func.attr == "format_op_mode_endecode_message_field" for b_ in n.body for c_ in ast.walk(b_)):
+                loops.append(_It(n.iter, n.lineno))
+            elif isinstance(n, (ast.ListComp, ast.GeneratorExp)) and any(isinstance(c_, ast.Call) and isinstance(c_.func, ast.Attribute) and c_.func.attr == "format_op_mode_endecode_message_field" for c_ in ast.walk(n)):
+                loops.append(_It(n.generators[0].iter, n.lineno))
         if len(loops) != 1:
             res.unsure("A4: planner message walk is not a single loop")
         else:
